@@ -7,6 +7,9 @@ ids = [p['id'] for p in props]
 
 # id -> (level, technique, level text, level note, design_ref)
 CLAIMED = {
+ 'C07': ('exploration', 'deterministic simulation: bit-equality with the sequential single-worker run under seeded schedules, simulated worker counts, concurrently interleaved samplers and progress mode',
+         'Every sampler kind (MH f32/f64/discrete, Gibbs, HMC f32/f64, NUTS f32/f64 on Gaussian and Rosenbrock targets) is built twice from the same inputs and seed and run sequentially (reference), then run() executes under 1..16 simulated pool workers with a scheduling point per transition, 2-3 samplers are interleaved per transition in one process, and run_progress runs on simulated threads/clock: all outputs must be bit-identical to the reference (NUTS progress: shifted by one). Seeds include 0, 2^32, 2^63 and u64::MAX-k; a different seed must change the output once the chain has moved; the seeded initialisers are called from several simulated threads in different orders.',
+         'Trusts: shuttle; the work-claiming stub for the rayon pool (cross-checked against real pools on 1/8 of runs); MH proposals seeded by the harness (Proposal::set_seed) count as inputs; default (OS-entropy) construction is outside C07.', '3/C07'),
  'C09': ('exploration', 'deterministic simulation: seeded schedules over simulated pool workers + transition-counter reference model over run() histories',
          'Seeded search over histories of run() calls on counting chains (state = chain id, transitions so far) executed by W simulated workers under random/PCT/sticky schedules with a scheduling point per transition; every returned cell, every chain counter and the state the sampler is left in are compared with the transition-counter model. Evidence, not proof: schedules and histories are sampled.',
          'Trusts: shuttle as the coroutine scheduler; the work-claiming stub standing in for rayon (cross-checked against real rayon pools on 10% of runs); NUTS/HMC own run() loops are covered by their scenarios, not by the stub chain.', '3/C09'),
